@@ -3,7 +3,7 @@
 # 1. scratch worktree of /repo HEAD: demo passes on the clean tree; patch applies; library + full test suite build and pass; demo fails
 # 2. the patch is applied to /repo, the property's quick check is run, the patch is reverted straight afterwards
 set -u
-d="$1"; prop="$2"; shift 2
+d=$(cd "$1" && pwd); prop="$2"; shift 2
 wt=$(mktemp -d /tmp/seedwt-XXXXXX)
 log="$d/verify.log"; : > "$log"
 cleanup() { git -C /repo worktree remove --force "$wt" >/dev/null 2>&1; rm -rf "$wt"; }
